@@ -1,0 +1,53 @@
+//go:build verif
+
+package proxy
+
+import (
+	"net"
+
+	"go.minekube.com/gate/pkg/edition/java/netmc"
+	"go.minekube.com/gate/pkg/edition/java/profile"
+	"go.minekube.com/gate/pkg/edition/java/proto/packet"
+	"go.minekube.com/gate/pkg/edition/java/proxy/bungeecord"
+	"go.minekube.com/gate/pkg/util/uuid"
+)
+
+// Verification hooks for property C26 (BungeeCord plugin channel). Add-only, no logic:
+// constructors over caller-supplied connections and thin forwarding functions, so that the harness can
+// run the real provider adapter (bungee.go) behind the real responder.
+
+// C26Player wraps a connectedPlayer built by newConnectedPlayer over a caller-supplied client connection.
+type C26Player struct{ p *connectedPlayer }
+
+// C26NewPlayer constructs a connectedPlayer with the deps HandleConn builds and registers it with the proxy
+// (registerConnection); ok reports whether the registration succeeded.
+func C26NewPlayer(px *Proxy, client netmc.MinecraftConn, name string, id uuid.UUID) (pl *C26Player, ok bool) {
+	deps := &sessionHandlerDeps{
+		proxy:          px,
+		registrar:      px,
+		configProvider: px,
+		eventMgr:       px.event,
+		authenticator:  px.authenticator,
+		loginsQuota:    px.loginsQuota,
+	}
+	prof := &profile.GameProfile{ID: id, Name: name}
+	vhost := &net.TCPAddr{IP: net.IPv4(127, 0, 0, 1), Port: 25565}
+	p := newConnectedPlayer(client, prof, vhost, packet.LoginHandshakeIntent, false, nil, deps)
+	return &C26Player{p: p}, px.registerConnection(p)
+}
+
+// C26SetConnected makes server the player's connected server over the caller-supplied backend connection
+// (newServerConnection + setConnectedServer + the server's player list), as a completed join.
+func C26SetConnected(pl *C26Player, server RegisteredServer, backend netmc.MinecraftConn) {
+	rs := server.(*registeredServer)
+	sc := newServerConnection(rs, nil, pl.p)
+	sc.connection = backend
+	sc.completedJoin.Store(true)
+	pl.p.setConnectedServer(sc)
+	rs.players.add(pl.p)
+}
+
+// C26Responder returns the responder the backend play session handler installs for this player.
+func C26Responder(px *Proxy, pl *C26Player) bungeecord.MessageResponder {
+	return newBungeeCordMessageResponder(true, pl.p, px)
+}
